@@ -34,6 +34,12 @@ type C16Case struct {
 	// LongRun > 0: an extra file of LongRun+10 blocks of which LongRun consecutive blocks are damaged (the wound
 	// aggregator passes an aggregate on every 4 MiB = 64 blocks)
 	LongRun int `json:"long_run,omitempty"`
+	// WorkerFails: the validation worker itself stops on an error (no wound reaches the consumer first):
+	// "short-signature": the signature handed to Validate lacks its last DropHashes block hashes (the directory is
+	// damaged too); "unreadable": the directory is /proc/self, signed as a build with one file `mem` — it opens,
+	// its first read fails
+	WorkerFails string `json:"worker_fails,omitempty"`
+	DropHashes  int    `json:"drop_hashes,omitempty"`
 }
 
 // failingConsumer returns an error after n wounds.
@@ -138,6 +144,21 @@ func c16One(env *Env, c *C16Case) {
 			}
 		},
 	}
+	if c.WorkerFails == "short-signature" && len(sig.Hashes) > c.DropHashes {
+		sig = &pwr.SignatureInfo{Container: sig.Container, Hashes: sig.Hashes[:len(sig.Hashes)-c.DropHashes]}
+		valid = false
+	}
+	if c.WorkerFails == "unreadable" {
+		if st, err := os.Lstat("/proc/self/mem"); err != nil || !st.Mode().IsRegular() {
+			return
+		}
+		one := &wvlib.Build{Entries: []wvlib.BEntry{{Path: "mem", Kind: 'f', Data: r.Bytes(4096)}}}
+		s1, err := signBuild(base+"/signed-mem", one)
+		if err != nil {
+			return
+		}
+		sig, dd, valid = s1, "/proc/self", false
+	}
 	vctx := &pwr.ValidatorContext{Consumer: consumer}
 	switch c.Consumer {
 	case "failfast":
@@ -176,8 +197,14 @@ func c16One(env *Env, c *C16Case) {
 	if verr != nil && strings.HasPrefix(verr.Error(), "PANIC") {
 		env.R.Violate("validate-panics:"+c.Consumer, verr.Error(), c)
 	}
+	if c.WorkerFails != "" {
+		env.R.Count("worker-fails:"+c.WorkerFails, 1)
+	}
 	if c.Consumer == "failfast" && verr == nil && !valid {
 		cls := "false-valid"
+		if c.WorkerFails != "" {
+			cls = "false-valid:worker-error-lost:" + c.WorkerFails
+		}
 		if c.CancelAt != -2 || c.MidLast > 0 {
 			cls = "false-valid:cancelled"
 		}
@@ -273,6 +300,12 @@ func runC16(env *Env) {
 			cases = append(cases, &C16Case{Seed: rng.Next(), Files: 3, Wounded: 0, Consumer: cons, CancelAt: -2, LongRun: lr})
 		}
 	}
+	// the worker itself fails: its error has to reach the caller
+	for i := 0; i < 6; i++ {
+		cases = append(cases, &C16Case{Seed: rng.Next(), Files: rng.Pick(0, 3, 40), Wounded: rng.Pick(1, 3), Consumer: "failfast", CancelAt: -2,
+			WorkerFails: "short-signature", DropHashes: 1 + i%3})
+	}
+	cases = append(cases, &C16Case{Seed: rng.Next(), Consumer: "failfast", CancelAt: -2, WorkerFails: "unreadable"})
 	par := env.Workers
 	if par > 6 {
 		par = 6
